@@ -114,6 +114,10 @@ fn draw_ep(t: &mut Tape, p: &mut Pos1) {
 }
 
 fn draw_clocks(t: &mut Tape, p: &mut Pos1, extreme: bool) {
+    if p.fmn >= 1000 && p.hmc >= 1000 {
+        // the longest-text shape brings its own four-digit clocks
+        return;
+    }
     if extreme {
         p.hmc = *t.pick(&[0u32, 1, 49, 95, 96, 97, 98, 99, 100, 101, 150, 9990, 9999]);
         p.fmn = *t.pick(&[0u32, 1, 2, 100, 5000, 9990, 9998, 9999]);
@@ -422,9 +426,73 @@ fn promotion_wall(t: &mut Tape) -> Pos1 {
     p
 }
 
+/// the longest record: 32 men on alternating squares of every rank (no run of empty squares
+/// is longer than one, so the placement field takes 71 bytes), queen-side rights for both
+/// sides and four-digit clocks - 88 to 90 bytes of text
+fn longest_text(t: &mut Tape) -> Pos1 {
+    for _ in 0..60 {
+        let mut p = Pos1::empty();
+        p.stm = if t.choose(2) == 0 { WHITE } else { BLACK };
+        // squares: rank r uses files of parity par[r]; ranks 1 and 8 start on the a-file so
+        // that a1/e1 and a8/e8 are available
+        let mut slots: Vec<u8> = Vec::new();
+        for r in 0..8u8 {
+            let par = if r == 0 || r == 7 { 0 } else { t.choose(2) as u8 };
+            for f in 0..8u8 {
+                if f % 2 == par {
+                    slots.push(sq(f, r));
+                }
+            }
+        }
+        p.sq[sq(4, 0) as usize] = pc(WHITE, K);
+        p.sq[sq(0, 0) as usize] = pc(WHITE, R);
+        p.sq[sq(4, 7) as usize] = pc(BLACK, K);
+        p.sq[sq(0, 7) as usize] = pc(BLACK, R);
+        p.cr[WQ] = true;
+        p.cr[BQ] = true;
+        // fourteen more men per side: up to eight pawns (ranks 2-7), the rest minor pieces and
+        // a queen, own men preferably on the own half so that few checks arise
+        for c in [WHITE, BLACK] {
+            let mut pawns = 0;
+            let mut left = 14;
+            let mut order: Vec<u8> = slots.iter().copied().filter(|&s| p.sq[s as usize] == EMPTY).collect();
+            if c == BLACK {
+                order.reverse();
+            }
+            for s in order {
+                if left == 0 {
+                    break;
+                }
+                let r = rank_of(s);
+                let own_half = if c == WHITE { r <= 3 } else { r >= 4 };
+                if !own_half {
+                    continue;
+                }
+                let k = if (1..=6).contains(&r) && pawns < 8 && t.choose(4) != 0 {
+                    pawns += 1;
+                    P
+                } else {
+                    *t.pick(&[N, B, N, B, R, Q])
+                };
+                p.sq[s as usize] = pc(c, k);
+                left -= 1;
+            }
+        }
+        p.hmc = *t.pick(&[9990u32, 9998, 1234, 9999]);
+        p.fmn = *t.pick(&[9990u32, 9998, 4321, 9999]);
+        if usable(&p) {
+            return p;
+        }
+    }
+    promotion_wall(t)
+}
+
 fn extremal(t: &mut Tape) -> Pos1 {
     if t.choose(3) == 2 {
         return promotion_wall(t);
+    }
+    if t.choose(4) == 3 {
+        return longest_text(t);
     }
     // up to 16 mobile white pieces plus two en-passant capturers
     let mut p = Pos1::empty();
